@@ -246,7 +246,9 @@ type state struct {
 	killHook func(KillInfo)
 	exitHook func(int)
 	nextFD   int
-	opens    map[string]int // path -> number of open-for-reading events so far
+	lat      []int64             // per-event latency (ns), cycled: every I/O event moves the clock (a slow disk)
+	advance  func(time.Duration) // how the clock is moved
+	opens    map[string]int      // path -> number of open-for-reading events so far
 	curOrd   int            // open ordinal of the descriptor a read event goes through (-1: none)
 }
 
@@ -257,6 +259,14 @@ func Mount(d *Disk, faults []Fault) {
 	fs2 := make([]Fault, len(faults))
 	copy(fs2, faults)
 	st = &state{disk: d, faults: fs2, fired: map[string]int{}, opens: map[string]int{}, curOrd: -1}
+}
+
+// SetLatency makes every I/O event of the mounted disk take simulated time: event i takes lat[i mod len(lat)]
+// nanoseconds (call after Mount).
+func SetLatency(lat []int64, advance func(time.Duration)) {
+	if st != nil {
+		st.lat, st.advance = lat, advance
+	}
 }
 
 // Unmount returns to pass-through.
@@ -343,6 +353,11 @@ type decision struct {
 func begin(op, path string, n int) (int, decision) {
 	idx := len(st.trace)
 	st.trace = append(st.trace, Event{Idx: idx, Op: op, Path: path, N: n})
+	if len(st.lat) > 0 && st.advance != nil {
+		if d := st.lat[idx%len(st.lat)]; d > 0 {
+			st.advance(time.Duration(d))
+		}
+	}
 	var dec decision
 	for i := range st.faults {
 		f := &st.faults[i]
@@ -675,6 +690,7 @@ func OpenFile(name string, flag int, perm fs.FileMode) (*File, error) {
 	if dec.kind == Fail {
 		return nil, end(idx, dec, pathErr("open", name, dec.errno))
 	}
+	opened := p
 	p, n, e := st.resolve(p) // a link is followed; a dangling one is created at its target with O_CREATE
 	switch {
 	case e == syscall.ENOENT && flag&os.O_CREATE != 0:
@@ -706,7 +722,7 @@ func OpenFile(name string, flag int, perm fs.FileMode) (*File, error) {
 			n.MTime = nowNS()
 		}
 	}
-	f := &File{name: name, path: p, ino: n, flag: flag, ord: ord}
+	f := &File{name: name, path: opened, ino: n, flag: flag, ord: ord} // events are named by the path the code used
 	return f, end(idx, dec, nil)
 }
 
